@@ -24,7 +24,7 @@ SPEC = dict(
             _fam("c21_limit", "as quick, every pair of split points"),
             _fam("c21_any", "every input of 0..5 fully symbolic bytes, every pair of split points", ("error", "more")),
             _fam("c21_delims2", "'GET' b b '/' b b 'HTTP/1.1' b LF CRLF: 5 symbolic bytes, every pair of split points"),
-            _fam("c21_fold2", "'GET / HTTP/1.1 CRLF A:b' b b b b 'c CRLF' b LF: 5 symbolic bytes, every pair of split points"),
+            _fam("c21_fold2", "'GET / HTTP/1.1 CRLF A:b' b b b b 'c CRLF' b LF: 5 symbolic bytes, every pair of split points", ("ok",)),
         ]),
     timeout=dict(quick=400, thorough=3000),
     stubs=["SquidConfig Config is the real global, zero-initialised, with relaxed_header_parser and maxRequestHeaderSize set by the harness", "debugs() disabled"],
